@@ -33,7 +33,8 @@ RULE = ("signature-legal interfaces (defaults form a suffix) from the class matr
         "emitted as class / pydantic / function (type_annotations x emit_as_kwonlyargs) / argparse x 3 docstring "
         "styles x emit_default_doc; a case = (interface, format, flags); distinct by content digest; non-trivial = "
         "at least one parameter")
-REQUIRED_MONITORS = ("class.emit.post", "pydantic.emit.post", "function.emit.post", "argparse.emit.post")
+REQUIRED_MONITORS = ("class.emit.post", "pydantic.emit.post", "function.emit.post", "argparse.emit.post",
+                     "function.type.checked")
 ASSUMPTIONS = [
     "normalisations applied: function parameter without default == None marker; argparse return entry only compared "
     "when it has a default; descriptions modulo whitespace / terminal full stop / 'Defaults to' clause",
@@ -115,6 +116,12 @@ def observe(fmt, ir, node, cfg):
             return True
         for d in cmp_ir(_expect(ir, fmt), back):
             _dev(P, fmt, ir, cfg, d, src)
+        if fmt == "function":
+            # the receiver (self / cls) is not a parameter of the interface; the parser reports it as the "type"
+            P.monitor("function.type.checked")
+            if back.get("type") != cfg["ft"]:
+                _dev(P, fmt, ir, cfg, {"where": "function", "field": "type", "how": "%s->%s" % (cfg["ft"], back.get("type")),
+                                       "exp": cfg["ft"], "got": back.get("type"), "tkind": "-", "dkind": "-"}, src)
         return True
     finally:
         CUR["busy"] = False
@@ -128,10 +135,11 @@ def post_pydantic(intermediate_repr, docstring_format, emit_default_doc, result,
     return observe("pydantic", OLD.ir, result, {"style": docstring_format, "edd": emit_default_doc})
 
 
-def post_function(intermediate_repr, docstring_format, emit_default_doc, type_annotations, emit_as_kwonlyargs, result,
-                  OLD):
+def post_function(intermediate_repr, function_type, docstring_format, emit_default_doc, type_annotations,
+                  emit_as_kwonlyargs, result, OLD):
     return observe("function", OLD.ir, result, {"style": docstring_format, "edd": emit_default_doc,
-                                                "ta": type_annotations, "kwonly": emit_as_kwonlyargs})
+                                                "ta": type_annotations, "kwonly": emit_as_kwonlyargs,
+                                                "ft": function_type or OLD.ir.get("type") or "static"})
 
 
 def post_argparse(intermediate_repr, docstring_format, emit_default_doc, result, OLD):
@@ -237,13 +245,24 @@ def configs():
                                "emit_as_kwonlyargs": kw}
 
 
+# (function_type argument, "type" of the description used when the argument is None)
+FUNCTION_TYPES = (("static", None), ("self", None), ("cls", None), (None, "static"), (None, "self"), (None, "cls"))
+
+
 def run_case(ctx, P, stream, idx):
     ir = gen_case(ctx, stream, idx)
     CUR.update(P=P, stream=stream, idx=idx)
     sh = irgen.shape(ir)
-    for fmt, kw in configs():
+    ir0 = ir
+    for n, (fmt, kw) in enumerate(configs()):
         if stream == "argparse_return" and (fmt != "argparse" or kw["docstring_format"] != "rest"):
             continue  # (Google/NumPy argparse docstrings with a return default are rejected by the unchanged parser)
+        ir = ir0
+        if fmt == "function":
+            ft, ir_type = FUNCTION_TYPES[(idx + n) % len(FUNCTION_TYPES)]
+            kw = dict(kw, function_type=ft)
+            if ir_type is not None:
+                ir = dict(deepcopy(ir0), type=ir_type)
         P.case({"ir": ir, "fmt": fmt, "kw": kw}, nontrivial=bool(ir["params"]), klass="%s/%s" % (stream, fmt),
                sample={"format": fmt, "options": kw, "shape": sh, "ir": ir})
         try:
